@@ -11,6 +11,7 @@
 #define CHAISCRIPT_BOXED_NUMERIC_HPP_
 
 #include <cstdint>
+#include <limits>
 #include <sstream>
 #include <string>
 
@@ -73,12 +74,20 @@ namespace chaiscript {
       t_long_double
     };
 
-    template<typename T>
-    constexpr static inline void check_divide_by_zero([[maybe_unused]] T t) {
+    /// Integer division and remainder trap the CPU for a zero divisor and for MIN / -1; both raise arithmetic_error
+    /// instead. Division with a floating point operand is carried out in floating point and is left to IEEE rules.
+    template<typename LHS, typename RHS>
+    constexpr static inline void check_integer_division([[maybe_unused]] LHS t_lhs, [[maybe_unused]] RHS t_rhs) {
 #ifndef CHAISCRIPT_NO_PROTECT_DIVIDEBYZERO
-      if constexpr (!std::is_floating_point<T>::value) {
-        if (t == 0) {
+      if constexpr (std::is_integral_v<LHS> && std::is_integral_v<RHS>) {
+        if (t_rhs == 0) {
           throw chaiscript::exception::arithmetic_error("divide by zero");
+        }
+        using Common = decltype(t_lhs / t_rhs);
+        if constexpr (std::is_signed_v<Common>) {
+          if (static_cast<Common>(t_rhs) == Common(-1) && static_cast<Common>(t_lhs) == std::numeric_limits<Common>::min()) {
+            throw chaiscript::exception::arithmetic_error("integer overflow in division");
+          }
         }
       }
 #endif
@@ -165,7 +174,7 @@ namespace chaiscript {
         case Operators::Opers::sum:
           return const_var(c_lhs + c_rhs);
         case Operators::Opers::quotient:
-          check_divide_by_zero(c_rhs);
+          check_integer_division(c_lhs, c_rhs);
           return const_var(c_lhs / c_rhs);
         case Operators::Opers::product:
           return const_var(c_lhs * c_rhs);
@@ -182,7 +191,7 @@ namespace chaiscript {
           case Operators::Opers::shift_right:
             return const_var(c_lhs >> c_rhs);
           case Operators::Opers::remainder:
-            check_divide_by_zero(c_rhs);
+            check_integer_division(c_lhs, c_rhs);
             return const_var(c_lhs % c_rhs);
           case Operators::Opers::bitwise_and:
             return const_var(c_lhs & c_rhs);
@@ -207,7 +216,7 @@ namespace chaiscript {
             *t_lhs += c_rhs;
             return t_bv;
           case Operators::Opers::assign_quotient:
-            check_divide_by_zero(c_rhs);
+            check_integer_division(c_lhs, c_rhs);
             *t_lhs /= c_rhs;
             return t_bv;
           case Operators::Opers::assign_difference:
@@ -220,7 +229,6 @@ namespace chaiscript {
         if constexpr (!std::is_floating_point<LHS>::value && !std::is_floating_point<RHS>::value) {
           switch (t_oper) {
             case Operators::Opers::assign_bitwise_and:
-              check_divide_by_zero(c_rhs);
               *t_lhs &= c_rhs;
               return t_bv;
             case Operators::Opers::assign_bitwise_or:
@@ -233,6 +241,7 @@ namespace chaiscript {
               *t_lhs >>= c_rhs;
               return t_bv;
             case Operators::Opers::assign_remainder:
+              check_integer_division(c_lhs, c_rhs);
               *t_lhs %= c_rhs;
               return t_bv;
             case Operators::Opers::assign_bitwise_xor:
